@@ -1,4 +1,5 @@
 """C14 — formatting is idempotent and canonical (one renderer, header boundaries, trailing newline, escape tables)."""
+from .. import golden
 from . import fmtrules as R
 
 EXPLANATION = (
@@ -18,6 +19,9 @@ def run(ctx):
     R.rule_arm_printers(ctx, want_anchor=False, want_boundary=True)
     R.rule_literal_escapes(ctx)
     R.rule_exists_parens(ctx)
+    ctx.rule("intention-table", "which source line of which entity is compared at each kind of layout boundary, and how two lines become Joined / "
+                                "Broken / BlankLine (rules/golden_intent.json): the printer's own output must read back as the same intention")
+    golden.check(ctx, "intention-table", "golden_intent.json")
     ctx.assume("the Preserve policy's feedback of intentions at every other declared boundary, vertical separation bounds and pun/parenthesis "
                "canonicalisation are NOT analysed; known non-idempotent inputs remain (see DESIGN.md, findings/candidates/C14)")
     return {}
